@@ -73,6 +73,10 @@ ROWS = {
    technique='property-based testing: generated identities over XML Char x NameID x authn context x session expiry x sign/encrypt/algorithm settings x SP options x bindings, IdP -> SP round trip through independent delivery decoders; round-trip equality + skeleton-invariance (metamorphic) oracle',
    text='For an IdP and SP configured from each other\'s generated metadata every response built with a combination satisfying the SP\'s requirements must be accepted and the SP must read back subject, attributes (mapped names, trimmed values), in-response-to, issuer, authn context and session expiry exactly; the element skeleton must equal that of the same response with benign values.',
    note=TOOL_NOTE + '; frozen clock; one open known finding (SOAP + response signature + encryption) excluded by matcher.'),
+ 'C17': dict(level='exploration', design='3/C17',
+   technique='property-based testing: token non-occurrence + decrypt-with-every-pool-key oracle on IdP output; metamorphic plain-vs-encrypted verdict relation and explicit bad-signature cases (incl. encrypted advice assertions) on the SP; enumerated undecryptable cases',
+   text='IdP half: for generated high-entropy identities and every sign/encrypt/advice/PEFIM/self-contained option and SP key-descriptor layout, no token may occur in the emitted bytes and only the SP\'s first private key decrypts. SP half: a fault inside the assertion must not be accepted encrypted when the same document is rejected in clear; decrypted advice assertions with bad signatures must be refused; content encrypted for a foreign key yields no identity.',
+   note=TOOL_NOTE + ' (3DES/AES-CBC, RSA-1_5/OAEP); frozen clock; SP acceptance of non-self-contained plaintext is not judged.'),
 }
 NOT_YET = {}
 def main():
